@@ -100,10 +100,16 @@ func (s *Service) WebSocketClient(ctx context.Context, urls string) error {
 				continue
 			}
 
-			// Remove the "to"
-			delete(m, "to")
+			// Remove the "to" (in a copy: the message is also
+			// what has been reported as emitted).
+			out := make(map[string]interface{}, len(m))
+			for p, v := range m {
+				if p != "to" {
+					out[p] = v
+				}
+			}
 
-			js, err := json.Marshal(&m)
+			js, err := json.Marshal(&out)
 			if err != nil {
 				s.Errors <- err
 				continue
